@@ -1865,6 +1865,34 @@ func (t *Terminal) dcs(body string) {
 	}
 }
 
+// CoverWithSixel marks the w x h cells at (r, c) as covered by a sixel
+// picture (the encoder vaxis uses sends no picture size in its raster
+// attributes, so the harness, which knows the picture's cell size, says where
+// a transmitted picture lies). The mark goes away when the cell is written or
+// erased, which is the only way to remove a sixel picture.
+func (t *Terminal) CoverWithSixel(r, c, w, h int) {
+	for y := r; y < r+h && y < t.Rows; y++ {
+		for x := c; x < c+w && x < t.Cols; x++ {
+			if y >= 0 && x >= 0 {
+				t.cur.cells[y][x].Sixel = true
+			}
+		}
+	}
+}
+
+// SixelCovered lists the cells still covered by a sixel picture.
+func (t *Terminal) SixelCovered() [][2]int {
+	var out [][2]int
+	for r := range t.cur.cells {
+		for c := range t.cur.cells[r] {
+			if t.cur.cells[r][c].Sixel {
+				out = append(out, [2]int{r, c})
+			}
+		}
+	}
+	return out
+}
+
 func isSixel(body string) bool {
 	i := 0
 	for i < len(body) && (body[i] >= '0' && body[i] <= '9' || body[i] == ';') {
